@@ -508,10 +508,10 @@ example : ∃ (T : Trig Rat) (pi δ : Rat), pi * (kdeg : Rat) = 180 + δ ∧ 0 <
   theorems above.  The model is an abstraction (squared integer distances, threshold `⌈2·max²⌉`), so the
   refinement is relative to explicit hypotheses on the number type `F` (`IL.Arith`: an embedding `emb` of squared
   distances under which the program's `<`, `>=`, `** 2`, `* 2.0`, `sqrt` are exact) and on the external
-  `_distance` (`IL.PNInput.d2`: its square on the coordinate grids is `emb (dist2 c …)`); numba's float32 rounding
+  `_distance` (`IL.Px.PNInput.d2`: its square on the coordinate grids is `emb (dist2 c …)`); numba's float32 rounding
   and int64 wrap-around are outside ILang. -/
 section generated
-open XrsVerif.IL
+open XrsVerif.IL XrsVerif.IL.Px
 variable {F : Type} [Fl F]
 
 /-- step 1: the target-test block of the generated line function computes `targetTest`, which is the model's
@@ -612,11 +612,11 @@ end generated
 
 /-! non-vacuity of the hypotheses of the generated-program theorems: a reading of `NV ℚ` as raster values, and a
     1 × 2 raster over `NV ℝ` (`sqrt` = `Real.sqrt`, `_distance` = Euclidean, `max_distance = 2`) satisfying `PNInput` -/
-example : ∃ (T : Trig Rat), letI := T; ∃ toVal : NV Rat → Val, IL.ValReading toVal :=
-  ⟨IL.Witness.trigQ, _, IL.Witness.ratReading⟩
+example : ∃ (T : Trig Rat), letI := T; ∃ toVal : NV Rat → Val, IL.Px.ValReading toVal :=
+  ⟨IL.Px.Witness.trigQ, _, IL.Px.Witness.ratReading⟩
 
 example : ∃ (c : Cfg) (emb : Nat → NV ℝ) (tg : Nat → Nat → Bool) (s0 : IL.State (NV ℝ)),
-    c.H = 1 ∧ c.W = 2 ∧ c.Refl ∧ tg 0 0 = true ∧ IL.PNInput c emb tg s0 :=
-  ⟨_, _, _, _, rfl, rfl, IL.Witness.wc_refl, rfl, IL.Witness.wInput⟩
+    c.H = 1 ∧ c.W = 2 ∧ c.Refl ∧ tg 0 0 = true ∧ IL.Px.PNInput c emb tg s0 :=
+  ⟨_, _, _, _, rfl, rfl, IL.Px.Witness.wc_refl, rfl, IL.Px.Witness.wInput⟩
 
 end XrsVerif.C06
